@@ -125,3 +125,19 @@ func Pick[T any](r *rand.Rand, xs []T) T { return xs[r.Intn(len(xs))] }
 
 // Fields splits an op into tokens.
 func Fields(op string) []string { return strings.Fields(op) }
+
+// UtilKind classifies a reported utilisation figure against the reported counts, so that it can be observed
+// without printing a float: zero | ratio (allocated/total) | percent (100*allocated/total) | nan | other.
+func UtilKind(alloc, total uint64, u float64) string {
+	switch {
+	case u != u:
+		return "nan"
+	case u == 0:
+		return "zero"
+	case total != 0 && u == float64(alloc)/float64(total):
+		return "ratio"
+	case total != 0 && u == float64(alloc)/float64(total)*100:
+		return "percent"
+	}
+	return "other"
+}
